@@ -92,3 +92,52 @@ M('c14-sync-normalize-ignores-cursor', 'C14', 'R5', S,
 # repaired shape (`size < 0`): lapses on a tree that still has `size == -1`
 M('c14-sync-fixed-normalize-only-minus-one', 'C14', 'R5', S,
   "if size is None or size < 0 or size > max_size:", "if size is None or size == -1 or size > max_size:")
+
+# ------------------------------------------------------------------ R6 delimiter searches never look in front of the cursor
+M('c14-sync-boundary-search-from-zero', 'C14', 'R6', S,          # seeded s-c14-1
+  "offset = max(self._buffer_len - delimiter_len_1, self._buffer_pos)", "offset = max(self._buffer_len - delimiter_len_1, 0)")
+M('c14-sync-boundary-search-no-max', 'C14', 'R6', S,
+  "offset = max(self._buffer_len - delimiter_len_1, self._buffer_pos)", "offset = self._buffer_len - delimiter_len_1")
+M('c14-sync-boundary-search-min', 'C14', 'R6', S,
+  "offset = max(self._buffer_len - delimiter_len_1, self._buffer_pos)", "offset = min(self._buffer_len - delimiter_len_1, self._buffer_pos)")
+M('c14-sync-search-from-buffer-start', 'C14', 'R6', S,
+  "            if self._buffer_len > self._buffer_pos:\n                delimiter_pos = self._buffer.find(delimiter, self._buffer_pos)\n",
+  "            if self._buffer_len > self._buffer_pos:\n                delimiter_pos = self._buffer.find(delimiter)\n")
+M('c14-sync-finalize-search-from-buffer-start', 'C14', 'R6', S,
+  "        if delimiter_pos < 0 and delimiter is not None:\n            delimiter_pos = self._buffer.find(delimiter, self._buffer_pos)\n",
+  "        if delimiter_pos < 0 and delimiter is not None:\n            delimiter_pos = self._buffer.find(delimiter)\n")
+M('c14-async-search-from-buffer-start', 'C14', 'R6', A,
+  "pos = self._buffer.find(delimiter, self._buffer_pos)", "pos = self._buffer.find(delimiter)")
+M('c14-async-no-trim-before-source-loop', 'C14', 'R6', A,
+  "        if self._buffer_pos > 0:\n            self._trim_buffer()\n\n        async for chunk in self._source:\n            offset",
+  "        async for chunk in self._source:\n            offset")
+
+# ------------------------------------------------------------------ R7 size-capped hand-out keeps a delimiter tail (shared with C13 R5)
+M('c14-async-capped-read-ignores-delimiter-tail', 'C14', 'R7', A,          # seeded s-c14-2 / s-c13-2
+  "if 0 < size_hint < (self._buffer_len - self._buffer_pos - delimiter_len_1):", "if 0 < size_hint < self._buffer_len - self._buffer_pos:", also=['C13'])
+M('c14-async-capped-read-tail-sign-flipped', 'C14', 'R7', A,
+  "if 0 < size_hint < (self._buffer_len - self._buffer_pos - delimiter_len_1):", "if 0 < size_hint < (self._buffer_len - self._buffer_pos + delimiter_len_1):", also=['C13'])
+M('c14-async-capped-read-tail-off-by-one', 'C14', 'R7', A,
+  "if 0 < size_hint < (self._buffer_len - self._buffer_pos - delimiter_len_1):", "if 0 < size_hint <= (self._buffer_len - self._buffer_pos - delimiter_len_1 + 1):", also=['C13'])
+M('c14-async-capped-read-advances-past-check', 'C14', 'R7', A,
+  "                self._buffer_pos += size_hint\n                yield self._buffer[buffer_pos : self._buffer_pos]\n\n        if self._buffer_pos > 0:",
+  "                self._buffer_pos += size_hint + delimiter_len_1\n                yield self._buffer[buffer_pos : self._buffer_pos]\n\n        if self._buffer_pos > 0:", also=['C13'])
+
+# ------------------------------------------------------------------ R8 conservation of the cursor (async generators)
+M('c14-async-eof-yield-without-cursor', 'C14', 'R8', A,          # the defect fixed by "mark the buffer consumed when an asgi read_until() hits end of stream"
+  "        self._buffer_pos = self._buffer_len\n        yield self._buffer\n", "        yield self._buffer\n")
+M('c14-async-iter-rest-without-cursor', 'C14', 'R8', A,
+  "            self._buffer_pos = self._buffer_len\n            yield self._buffer[buffer_pos : self._buffer_len]\n",
+  "            yield self._buffer[buffer_pos : self._buffer_len]\n")
+M('c14-async-found-yield-without-cursor', 'C14', 'R8', A,
+  "                self._buffer_pos = pos\n                yield self._buffer[buffer_pos:pos]\n", "                yield self._buffer[buffer_pos:pos]\n")
+M('c14-async-boundary-yield-cursor-short', 'C14', 'R8', A,
+  "self._buffer_pos = offset + pos\n", "self._buffer_pos = pos\n")
+M('c14-async-cursor-advanced-after-yield', 'C14', 'R8', A,
+  "                buffer_pos = self._buffer_pos\n                self._buffer_pos += size_hint\n                yield self._buffer[buffer_pos : self._buffer_pos]\n\n            buffer_pos = self._buffer_pos\n",
+  "                buffer_pos = self._buffer_pos\n                yield self._buffer[buffer_pos : buffer_pos + size_hint]\n                self._buffer_pos += size_hint\n\n            buffer_pos = self._buffer_pos\n")
+M('c14-async-in-loop-found-yield-without-cursor', 'C14', 'R8', A,
+  "                    self._buffer_pos = pos\n                    yield self._buffer[:pos]\n", "                    yield self._buffer[:pos]\n")
+M('c14-async-found-yield-start-saved-after-advance', 'C14', 'R8', A,
+  "                buffer_pos = self._buffer_pos\n                self._buffer_pos = pos\n                yield self._buffer[buffer_pos:pos]\n",
+  "                self._buffer_pos = pos\n                buffer_pos = self._buffer_pos\n                yield self._buffer[buffer_pos:pos]\n")
